@@ -420,8 +420,14 @@ def get_units():
     u = Unit('%s/tcp_recv.deadline' % PROP, tcp_recv_deadline, [PROP], functions=['pymodbus.client.sync.ModbusTcpClient._recv'])
     u.backend = 'ownership'
     us.append(u)
+    from . import C08 as _C08
     for kind in KINDS:
         fq = F.QUAL[kind]
+        # "a frame for another unit" is not the reply: what the framer hands to the client's callback carries the wire unit id and passed
+        # the unit filter (the lemma C08/filter.<kind>, here because the clause is C13's as well)
+        if kind != 'socket':       # TCP: the socket framer's error path delivers past the filter (C08-F4 / C13-F4: recorded there)
+            us.append(Unit('%s/filter.%s' % (PROP, kind), _C08.filter_lemma(kind), [PROP], contracts=_C08.CS, loops=F.loop_anns(kind),
+                           functions=[fq + '.processIncomingPacket', fq + '._process', fq + '.populateResult', 'pymodbus.framer.ModbusFramer._validate_unit_id']))
         us.append(Unit('%s/transact.%s' % (PROP, kind), transact_lemma(kind), [PROP], contracts=CS,
                        functions=[TMQ + '._transact', TMQ + '._recv', TMQ + '._send', fq + '.buildPacket', fq + '.sendPacket', fq + '.recvPacket']))
         us.append(Unit('%s/framer.%s' % (PROP, kind), framer_lemma(kind), [PROP], contracts=CS, loops=F.loop_anns(kind),
